@@ -191,11 +191,10 @@ func handleFormData(r *Request) {
 
 var errBadOrderedFormData = errors.New("bad ordered form data, the number of key-value pairs should be an even number")
 
-func handleOrderedFormData(r *Request) {
+func handleOrderedFormData(r *Request) error {
 	r.SetContentType(header.FormContentType)
 	if len(r.OrderedFormData)%2 != 0 {
-		r.error = errBadOrderedFormData
-		return
+		return errBadOrderedFormData
 	}
 	maxIndex := len(r.OrderedFormData) - 2
 	var buf strings.Builder
@@ -210,6 +209,7 @@ func handleOrderedFormData(r *Request) {
 		buf.WriteString(url.QueryEscape(value))
 	}
 	r.SetBodyString(buf.String())
+	return nil
 }
 
 func handleMarshalBody(c *Client, r *Request) error {
@@ -265,8 +265,7 @@ func parseRequestBody(c *Client, r *Request) (err error) {
 		handleFormData(r)
 		return
 	} else if len(r.OrderedFormData) > 0 {
-		handleOrderedFormData(r)
-		return
+		return handleOrderedFormData(r)
 	}
 
 	// handle marshal body
